@@ -17,6 +17,7 @@ from vlib import query_kit as Q
 
 P = ('type', 'Person')
 A = ('type', 'Admin')
+CH = ('type', 'Chief')
 O = ('type', 'Post')
 
 # (term, kind, root types used)
@@ -49,6 +50,8 @@ ATOMS = [
     (('set', ('int', 1), ('int', 2), ('int', 2)), 'int', set()),
     (('path', ('path', O, 'likes'), 'best'), 'obj:Person', {'Post'}),
     (('path', ('path', ('path', P, 'friends'), 'friends'), 'tags'), 'str', {'Person'}),
+    (CH, 'obj:Person', {'Chief'}),
+    (('isa', ('path', O, 'likes'), 'Chief'), 'obj:Person', {'Post'}),
 ]
 NATOM = len(ATOMS)
 
